@@ -428,7 +428,7 @@ def _mt_type_ok(u):
 
 
 def msgtext_in_model(text):
-    """the fragment the executable instance covers: ASCII, TTL-like tokens in canonical decimal,
+    """the fragment the executable instance covers: ASCII, any int(x, 0) spelling of the TTL,
     class IN (or the UPDATE meta classes), types of the instance's table or TYPEnnn, no generic
     syntax for known types"""
     if isinstance(text, list):
@@ -439,12 +439,6 @@ def msgtext_in_model(text):
     import re as _re
 
     for tok in _re.findall(r"[^\s()\";]+", t):
-        try:
-            v = int(tok, 0)
-            if str(v) != tok:
-                return False
-        except ValueError:
-            pass
         u = tok.upper()
         if _re.fullmatch(r"[A-Z][A-Z0-9_-]*", u) and not _re.fullmatch(r"TYPE\d+", u) and not _mt_type_ok(u):
             return False              # a type the library implements and RdTextM has no schema for
@@ -720,6 +714,8 @@ MT_Q = ["www.example. IN A", "www.example. A", "example. IN SOA", "example. ANY 
 MT_CLS = ["c 5 CH A ns.example. 12", "c 5 CH A ns.example. 8", "c 5 CHAOS A x 0777", "c 5 CH A 10.0.0.1", "c 5 HS A 10.0.0.1", "c 5 HS TXT \"x\"", "c 5 CH TXT \"x\" y",
           "c 5 CLASS3 A n 1", "c 5 CLASS1 A 10.0.0.1", "c 5 CLASS65535 TXT q", "c 5 CLASS65536 TXT q", "c 5 INTERNET A 10.0.0.1", "c 5 HESIOD MX 1 m", "c 5 RESERVED0 A 1.2.3.4",
           "c 5 CH SRV 1 2 3 t", "c 5 CH AAAA ::1", "c 5 CH NS n", "c CH A \\# 3 006161", "c 9 CH TYPE1 \\# 3 000001", "c CLASS3 TYPE1 \\# 0"]
+MT_TTL = ["0x10", "0X1f", "0o17", "0b101", "0_1", "0x_1f", "1_0", "1__0", "_1", "1_", "+5", "-0", "-1", "00", "0_0", "01", "0x", "0b2", "0o8", "0xg", "4294967295", "0xffffffff",
+          "0x100000000", "4_294_967_296", "0b" + "1" * 33, "+0x10", "-0x1", "1e3", "0.5", "0x1.8", "١"]
 MT_UPD = ["foo ANY A", "foo ANY ANY", "foo NONE A 10.0.0.9", "foo NONE A", "foo 300 IN A 10.0.0.1", "foo ANY A 10.0.0.1", "bar 0 ANY MX", "bar 0 NONE MX 10 x", "foo 300 A 10.0.0.5"]
 
 
@@ -759,7 +755,7 @@ def gen_msgtext(rng):
     if rng.random() < 0.25:
         toks = t.split(" ")
         i = rng.randrange(len(toks))
-        toks[i] = rng.choice(["", "0", "300", "IN", "A", "ANY", "NONE", "(", ")", "\"", "\\", ";", "@", "x.", "..", "\n", "QR", "TYPE1", "65536", "-1", "a" * 64])
+        toks[i] = rng.choice(["", "0", "300", "IN", "A", "ANY", "NONE", "(", ")", "\"", "\\", ";", "@", "x.", "..", "\n", "QR", "TYPE1", "65536", "-1", "a" * 64] + MT_TTL[:12])
         t = " ".join(toks)
     return t
 
@@ -770,6 +766,9 @@ def msgtext_cases(ctx):
         t = gen_msgtext(rng)
         o = rng.choice([None, None, [b"example", b""], [b""]])
         yield "msg_text_model", [63, 1, enc(t), rng.randrange(2), o, rng.randrange(2)]
+    for tt in MT_TTL:
+        yield "msg_text_model", [63, 1, enc("id 1\n;ANSWER\nt.example. " + tt + " IN A 10.0.0.1\n"), 0, None, 0]
+        yield "msg_text_model", [63, 1, enc("id 1\n;ANSWER\nt.example. " + tt + " A 10.0.0.1\n"), 0, None, 0]
     for ln in MT_CLS:
         for sec in ("ANSWER", "QUESTION"):
             yield "msg_text_model", [63, 1, enc("id 1\n;" + sec + "\n" + ln + "\n"), 0, None, 0]
